@@ -72,17 +72,20 @@ def run(chk):
         if shape == "upper-triangle":
             t1, t2 = 0, None
         elif shape == "square":
-            t1, t2 = rng.randint(1, 8), None
+            t1, t2 = rng.choice([0, 0, 1, 1, 2, 3, 4, 5, 6, 7, 8]), None        # t1 = 0: the cell on the diagonal (needs eta at -delta)
         else:
-            t1 = rng.randint(1, 8)
+            t1 = rng.choice([0, 1, 1, 2, 3, 4, 5, 6, 7, 8])
             t2 = t1 + rng.randint(1, 6)
         val = corr.correlation_2d_integral(dl, t1 * dl, None if t2 is None else t2 * dl, shape=shape)
         kind = {"upper-triangle": 0, "square": 1, "rectangle": 2}[shape]
         scale = 512            # eta(k/8) * 512 is an integer for cubic polynomials with integer coefficients
-        gre = [a * k * k * 8 + b * k * k * k for k in range(16)]
-        gim = [c * k * 64 for k in range(16)]
+        # the model's cells depend on index differences only: a cell touching the diagonal is evaluated on the table
+        # shifted by one entry (which then starts at eta(-delta))
+        sh = 1 if (t1 == 0 and shape != "upper-triangle") else 0
+        gre = [a * k * k * 8 + b * k * k * k for k in range(-sh, 16)]
+        gim = [c * k * 64 for k in range(-sh, 16)]
         for part, g, v in (("re", gre, val.real), ("im", gim, val.imag)):
-            exprs.append(f"[cell {kind} {coq_list([zlit(x) for x in g])} {t1} {t2 or 0}]")
+            exprs.append(f"[cell {kind} {coq_list([zlit(x) for x in g])} {t1 + sh} {(t2 + sh) if t2 is not None else 0}]")
             expected.append([int(round(v * scale))] if abs(v * scale - round(v * scale)) < 1e-9 else ["non-integer", v])
             meta.append({"kind": "shape", "shape": shape, "t1": t1, "t2": t2, "part": part, "coeffs": [a, b, c]})
         chk.count("shape_" + shape)
@@ -137,7 +140,7 @@ def run(chk):
 
     n_search = 40 if (thorough or chk.disagreements or chk.broken) else 10
     strata = [(0.05, "upper-triangle", True), (0.0, "upper-triangle", True), (0.5, "upper-triangle", False), (0.05, "square", False),
-              (5.0, "rectangle", False), (0.0, "square", False)]
+              (5.0, "rectangle", False), (0.0, "square", True), (0.5, "rectangle", True)]
     for it in range(n_search):
         T = rng.choice([0.0, 0.0, 0.05, 0.5, 5.0, 50.0])
         forced = strata[it] if it < len(strata) else None
@@ -167,6 +170,8 @@ def run(chk):
             if forced:
                 shape = forced[1]
                 t1 = 0.0 if forced[2] else rng.randint(1, 4) * dt
+            elif shape in ("square", "rectangle") and rng.random() < 0.3:
+                t1 = rng.choice([0.0, 0.5 * dt])                        # cells on / straddling the diagonal
             t2 = t1 + rng.randint(1, 3) * dt if shape == "rectangle" else None
             got = complex(corr.correlation_2d_integral(dt, t1, t2, shape=shape, epsrel=eps))
             hi = {"square": lambda x: dt, "rectangle": lambda x: dt, "upper-triangle": lambda x: x - t1}[shape]
